@@ -232,7 +232,11 @@ def check_sart_covariance(inv, case, rng, out):
         return
     W, b = case["W"], case["b"]
     x0 = initial_array(case["guess"], case["n"])
-    x, cs = np.array(impl["x"]), impl["convs"]
+    # baseline on plain contiguous float64 copies: the comparisons below then differ from it ONLY by the scaling / the order
+    # (the case's own objects may be strided, and NumPy rounds sums differently for different strides)
+    x, cs = plain_sart(inv, case, W.copy(), b.copy(), x0.copy())
+    if not cs:
+        return
     top = max(np.abs(W).max(), np.abs(b).max(), np.abs(x0).max(), 1e-300)
     low = min([v for v in (np.abs(W[W != 0]).min(initial=np.inf), np.abs(b[b != 0]).min(initial=np.inf)) if np.isfinite(v)] + [1.0])
     base = {"kind": case["kind"], "W": W.tolist(), "b": b.tolist(), "guess": x0.tolist(), "relaxation": case["relax"],
